@@ -6,6 +6,7 @@ package main
 // compute unit hands to the same ALU); plus the instrumented StorageAccessor.
 
 import (
+	"bytes"
 	"encoding/binary"
 	"fmt"
 
@@ -45,7 +46,10 @@ type backing interface {
 	setInst(i *insts.Inst)
 	load(st *isaspec.State)
 	setPC(pc uint64)
-	read(into *snapshot)
+	// vgprEqual reports whether the wave's VGPRs equal the image (fast path).
+	vgprEqual(img []uint32) bool
+	// read copies the state out; withV=false skips the VGPRs.
+	read(into *snapshot, withV bool)
 }
 
 // ---------------------------------------------------------------------------
@@ -66,19 +70,17 @@ func newEmuBacking() *emuBacking {
 	return &emuBacking{st: &emuState{Wavefront: emu.NewWavefront(raw)}}
 }
 
-func (b *emuBacking) name() string             { return backName[backEmu] }
-func (b *emuBacking) state() emu.InstEmuState  { return b.st }
-func (b *emuBacking) setInst(i *insts.Inst)    { b.st.inst = i }
-func (b *emuBacking) setPC(pc uint64)          { b.st.SetPC(pc) }
+func (b *emuBacking) name() string            { return backName[backEmu] }
+func (b *emuBacking) state() emu.InstEmuState { return b.st }
+func (b *emuBacking) setInst(i *insts.Inst)   { b.st.inst = i }
+func (b *emuBacking) setPC(pc uint64)         { b.st.SetPC(pc) }
 
 func (b *emuBacking) load(st *isaspec.State) {
 	wf := b.st.Wavefront
 	for i := 0; i < isaspec.NumSGPR; i++ {
 		binary.LittleEndian.PutUint32(wf.SRegFile[4*i:], st.SGPR[i])
 	}
-	for i, v := range st.VGPR {
-		binary.LittleEndian.PutUint32(wf.VRegFile[4*i:], v)
-	}
+	copy(wf.VRegFile, asBytes(st.VGPR))
 	wf.SetVCC(st.VCC)
 	wf.SetEXEC(st.EXEC)
 	wf.SetSCC(byte(st.SCC))
@@ -86,16 +88,20 @@ func (b *emuBacking) load(st *isaspec.State) {
 	wf.SetPC(st.PC)
 }
 
-func (b *emuBacking) read(s *snapshot) {
+func (b *emuBacking) vgprEqual(img []uint32) bool {
+	return bytes.Equal(b.st.Wavefront.VRegFile, asBytes(img))
+}
+
+func (b *emuBacking) read(s *snapshot, withV bool) {
 	wf := b.st.Wavefront
 	for i := 0; i < isaspec.NumSGPR; i++ {
 		s.sgpr[i] = binary.LittleEndian.Uint32(wf.SRegFile[4*i:])
 	}
-	if len(s.vgpr) != len(wf.VRegFile)/4 {
-		s.vgpr = make([]uint32, len(wf.VRegFile)/4)
-	}
-	for i := range s.vgpr {
-		s.vgpr[i] = binary.LittleEndian.Uint32(wf.VRegFile[4*i:])
+	if withV {
+		if len(s.vgpr) != len(wf.VRegFile)/4 {
+			s.vgpr = make([]uint32, len(wf.VRegFile)/4)
+		}
+		copy(asBytes(s.vgpr), wf.VRegFile)
 	}
 	s.vcc, s.exec, s.scc, s.m0, s.pc = wf.VCC(), wf.EXEC(), uint32(wf.SCC()), wf.M0, wf.PC()
 }
@@ -139,8 +145,7 @@ func (b *timingBacking) name() string            { return backName[backTiming] }
 func (b *timingBacking) state() emu.InstEmuState { return b.wf }
 func (b *timingBacking) setPC(pc uint64)         { b.wf.SetPC(pc) }
 func (b *timingBacking) setInst(i *insts.Inst) {
-	di := wavefront.NewInst(i)
-	b.wf.SetDynamicInst(di)
+	b.wf.SetDynamicInst(&wavefront.Inst{Inst: i, ID: "c03"})
 }
 
 func (b *timingBacking) load(st *isaspec.State) {
@@ -149,9 +154,7 @@ func (b *timingBacking) load(st *isaspec.State) {
 		binary.LittleEndian.PutUint32(sb[4*i:], st.SGPR[i])
 	}
 	b.cu.SRegFile.Write(cu.RegisterAccess{Reg: insts.SReg(0), RegCount: isaspec.NumSGPR, WaveOffset: timingSOff, Data: sb})
-	for i, v := range st.VGPR {
-		binary.LittleEndian.PutUint32(b.buf[4*i:], v)
-	}
+	copy(b.buf, asBytes(st.VGPR))
 	// lane stride of the file is 1024 bytes = 256 registers: identical to the model's layout
 	b.cu.VRegFile[0].Write(cu.RegisterAccess{Reg: insts.VReg(0), RegCount: len(b.buf) / 4, LaneID: 0, WaveOffset: 0, Data: b.buf})
 	b.wf.SetVCC(st.VCC)
@@ -161,18 +164,23 @@ func (b *timingBacking) load(st *isaspec.State) {
 	b.wf.SetPC(st.PC)
 }
 
-func (b *timingBacking) read(s *snapshot) {
+func (b *timingBacking) vgprEqual(img []uint32) bool {
+	b.cu.VRegFile[0].Read(cu.RegisterAccess{Reg: insts.VReg(0), RegCount: len(b.buf) / 4, LaneID: 0, WaveOffset: 0, Data: b.buf})
+	return bytes.Equal(b.buf, asBytes(img))
+}
+
+func (b *timingBacking) read(s *snapshot, withV bool) {
 	sb := make([]byte, 4*isaspec.NumSGPR)
 	b.cu.SRegFile.Read(cu.RegisterAccess{Reg: insts.SReg(0), RegCount: isaspec.NumSGPR, WaveOffset: timingSOff, Data: sb})
 	for i := 0; i < isaspec.NumSGPR; i++ {
 		s.sgpr[i] = binary.LittleEndian.Uint32(sb[4*i:])
 	}
-	b.cu.VRegFile[0].Read(cu.RegisterAccess{Reg: insts.VReg(0), RegCount: len(b.buf) / 4, LaneID: 0, WaveOffset: 0, Data: b.buf})
-	if len(s.vgpr) != len(b.buf)/4 {
-		s.vgpr = make([]uint32, len(b.buf)/4)
-	}
-	for i := range s.vgpr {
-		s.vgpr[i] = binary.LittleEndian.Uint32(b.buf[4*i:])
+	if withV {
+		b.cu.VRegFile[0].Read(cu.RegisterAccess{Reg: insts.VReg(0), RegCount: len(b.buf) / 4, LaneID: 0, WaveOffset: 0, Data: b.buf})
+		if len(s.vgpr) != len(b.buf)/4 {
+			s.vgpr = make([]uint32, len(b.buf)/4)
+		}
+		copy(asBytes(s.vgpr), b.buf)
 	}
 	s.vcc, s.exec, s.scc, s.m0, s.pc = b.wf.VCC(), b.wf.EXEC(), uint32(b.wf.SCC()), b.wf.M0, b.wf.PC()
 }
